@@ -525,7 +525,26 @@ theorem C08_wiring :
   · intro m n i; exact ⟨rfl, rfl, rfl, rfl⟩
   · intro p s; simp [doAxis]
 
+/-- **Which target size meets which axis** (read off the per-axis loop of `Spectrum.project` on every run — loop header,
+    loop targets, test and call are translated into `axisVisits` / `visitDoes` / `visitCall`, and `Spec.projectAxes`, the
+    loop the driver executes, folds over them): every axis is visited exactly once, in the order 0, 1, …; axis k is paired
+    with the k-th requested size `ns[k]`, tested against the k-th sample size, and `(ns[k], k)` is what
+    `_project_one_axis(n, axis)` receives.  A source in which the requested sizes reach other axes (a permuted visiting order
+    whose pairing is not permuted along, swapped call arguments, a reversed list) changes these definitions and this
+    statement fails; an order that is computed from the data or the array size is outside the translated language. -/
+theorem C08_axis_pairing (S : Spec) (ns sizes : List ℕ) (npop : ℕ) :
+    axisVisits npop ns = (List.range ns.length).map (fun k => (k, ns.getD k 0))
+    ∧ (∀ k m, visitCall ns sizes (k, m) = (m, k))
+    ∧ (∀ k m, visitDoes ns sizes (k, m) = doAxis m (sizes.getD k 0))
+    ∧ Spec.projectAxes S ns sizes = (List.range ns.length).foldl
+        (fun o k => if doAxis (ns.getD k 0) (sizes.getD k 0) then o.projectAxis k (ns.getD k 0) else o) S :=
+  ⟨PBox.range_zip_self ns, fun _ _ => rfl, fun _ _ => rfl, PBox.projectAxes_eq_range S ns sizes⟩
+
 /-! ## non-vacuity -/
+
+/-- unequal target sizes, the later axes shrinking more than the first: every size lands on its own axis (3×4×5 → 3×2×2) -/
+example : ((Spec.ofFn [3, 4, 5] (fun idx => (idx.getD 0 0 + 3 * idx.getD 1 0 + 7 * idx.getD 2 0 : ℕ)) (fun _ => false) false).project
+    [2, 1, 1]).toOption.map (·.shape) = some [3, 2, 2] := by decide +kernel
 
 /-- n = 6 → m = 4, i = 3: the row is C(4,j)·C(2,3−j)/C(6,3) = (0, 4/20, 12/20, 4/20, 0) -/
 example : cachedProjection 4 6 3 = some [0, 1/5, 3/5, 1/5, 0] := by decide +kernel
